@@ -453,6 +453,24 @@ def every_rules_file_kept(ctx):
         ctx.ob(rule, rule + ":every-rules-file-kept", not bad and n_ok >= 1, "; ".join(sorted(set(bad))[:2]) or "%d success paths, each pushes the item once" % n_ok, fn=f)
     if not done:
         ctx.lost(rule, rule + ":every-rules-file-kept", "the try_fold closure of commands::validate::get_rule_info")
+    # ... and nothing removes entries from the collected lists of rules files / data files in Validate::execute
+    EX = "<commands::validate::Validate as commands::Executable>::execute"
+    removers = ("dedup", "dedup_by", "dedup_by_key", "retain", "retain_mut", "remove", "swap_remove", "truncate", "drain", "pop", "clear", "split_off")
+    hits = []
+    n_push = 0
+    for k in [EX] + sorted(x for x in cr.fns if x.startswith(EX + "::{closure")):
+        f = cr.fns.get(k)
+        if not f:
+            ctx.lost(rule, rule + ":no-file-dropped", EX)
+            return
+        for bi, t in M.iter_calls(f):
+            p = M.norm_path(t["fn"].get("path", ""))
+            if p.startswith("std::vec::Vec::") and p.split("::")[-1] in removers:
+                hits.append("%s (l.%s)" % (p.split("::")[-1], t.get("ln")))
+            if p.startswith("std::vec::Vec::") and p.split("::")[-1] in ("push", "extend", "append"):
+                n_push += 1
+    ctx.ob(rule, rule + ":no-file-dropped", not hits and n_push >= 3, ("Validate::execute applies %s to a collected list: a rules / data file that was named on the command line is silently not evaluated" % hits) if hits
+           else "the lists of rules and data files are only extended (%d push/extend sites, no removal)" % n_push, fn=cr.fns[EX])
 
 
 def run(ctx):
